@@ -155,6 +155,20 @@ impl ZmtpEngine {
     }
   }
 
+  /// True when the data-phase framer adds no record layer (NULL/PLAIN). With an encrypting
+  /// framer every record must reach the wire in the order it was sealed.
+  pub fn is_passthrough(&self) -> bool {
+    self.framer.is_passthrough()
+  }
+
+  /// Data-phase commands (PING/PONG) go through the active framer, so that on a secured
+  /// connection they are sealed into the record stream like any other frame.
+  fn frame_data_phase_command(&mut self, msg: crate::Msg) -> Result<Bytes, ZmqError> {
+    let mut fb = FrameBatch::new();
+    fb.push(msg);
+    self.framer.write_msg_multipart(fb)
+  }
+
   /// Encode a single logical multipart message (FrameBatch) to wire bytes.
   pub fn frame_msgs(&mut self, msgs: FrameBatch) -> Result<Bytes, ZmqError> {
     self.framer.write_msg_multipart(msgs)
@@ -243,7 +257,7 @@ impl ZmtpEngine {
           .map(|d| d.as_millis().min(u16::MAX as u128) as u16)
           .unwrap_or(0);
         let ping_msg = ZmtpCommand::create_ping(ttl_ms, &[]);
-        match encode_msg(ping_msg) {
+        match self.frame_data_phase_command(ping_msg) {
           Ok(data) => {
             out.net_actions.push(NetAction::Send {
               data,
@@ -724,7 +738,7 @@ impl ZmtpEngine {
         match ZmtpCommand::parse(&msg) {
           Some(ZmtpCommand::Ping(ctx)) => {
             let pong = ZmtpCommand::create_pong(&ctx);
-            match encode_msg(pong) {
+            match self.frame_data_phase_command(pong) {
               Ok(data) => out.net_actions.push(NetAction::Send {
                 data,
                 zc_eligible: false,
